@@ -22,6 +22,7 @@ type Ctx struct {
 	g    *load.G
 	skel *skeleton.Gen
 	vars map[string]*variants.Variant
+	absCache map[string]*absVariant
 	R    *ob.Report
 }
 
